@@ -34,11 +34,12 @@ ASSUMPTIONS = [
     'crash model as in C01 (prefix of the operation log across all files + torn last write), applied to the operations a pack '
     'issues on the data, .pack, .old and .index files',
     'history G1 (zverif/graph.py); pack time between its 5th and 6th transaction so that the pack removes data and keeps later '
-    'transactions; garbage collection on',
+    'transactions, or (late) after everything present at pack start; garbage collection on',
+    'what=split: ONE commit injected in two steps (begin+store+vote, then finish) at two ordered yield points of the packer',
 ]
 
 
-def _setup(with_locks):
+def _setup(with_locks, late=False):
     env = T.Env()
     sch = locks.install(env.fs) if with_locks else None
     g = GR.G(env).build('G1')
@@ -47,6 +48,9 @@ def _setup(with_locks):
     pre = GR.model_from_storage(s)
     # pack time: just after the 5th listed transaction (t4) -> t5 (undo), t6, t7, t8 stay
     stop = (int.from_bytes(pre.txns[4].tid, 'big') + 5).to_bytes(8, 'big')
+    if late:
+        # pack time after everything present when the pack starts (the plain db.pack() case)
+        stop = (int.from_bytes(pre.txns[-1].tid, 'big') + 5).to_bytes(8, 'big')
     return env, sch, g, s, pre, stop
 
 
@@ -59,7 +63,7 @@ def _pack(s, stop):
 A_OID = T.oid(1)          # object `a` of history G1
 
 
-def h_pack_race(at1: int, at2: int, k: int, what: str) -> None:
+def h_pack_race(at1: int, at2: int, k: int, what: str, late: bool = False) -> None:
     assume(0 <= at1)
     if k == 2:
         assume(at1 <= at2)
@@ -68,7 +72,7 @@ def h_pack_race(at1: int, at2: int, k: int, what: str) -> None:
     with untraced():
         from ZODB.POSException import ReadConflictError, POSKeyError, UndoError
         from ZODB.utils import load_current
-        env, sch, g, s, pre, stop = _setup(True)
+        env, sch, g, s, pre, stop = _setup(True, late)
         try:
             model = pre.copy()
             out = {}
@@ -84,6 +88,24 @@ def h_pack_race(at1: int, at2: int, k: int, what: str) -> None:
                 s.tpc_vote(t)
                 tid = s.tpc_finish(t)
                 model.add(MTxn(tid, [MRec(A_OID, new)], b'racer', b'commit during pack %d' % n[0]))
+                out.setdefault('commits', []).append(tid)
+
+            pending = {}
+
+            def vote_part():
+                # one transaction in two steps: begin + store + vote here, the finish at a later point
+                data, serial = load_current(s, A_OID)
+                new = data + b' #split'
+                t = T.meta(b'racer', b'commit split around the packer')
+                s.tpc_begin(t)
+                s.store(A_OID, serial, new, '', t)
+                s.tpc_vote(t)
+                pending['t'] = (t, new)
+
+            def finish_part():
+                t, new = pending['t']
+                tid = s.tpc_finish(t)
+                model.add(MTxn(tid, [MRec(A_OID, new)], b'racer', b'commit split around the packer'))
                 out.setdefault('commits', []).append(tid)
 
             def undo():
@@ -126,19 +148,33 @@ def h_pack_race(at1: int, at2: int, k: int, what: str) -> None:
                 except F.FileStorageError as ex:
                     out['pack2'] = 'refused'
             ops = dict(commit=commit, undo=undo, read=read, pack2=pack2)
-            sch.add(at1, ops[what], tid=1, name=what)
-            if k == 2:
-                sch.add(at2, commit, tid=1, name='commit')
+            if what == 'split':
+                sch.add(at1, vote_part, tid=1, name='vote')
+                sch.add(at2, finish_part, tid=1, name='finish')
+            else:
+                sch.add(at1, ops[what], tid=1, name=what)
+                if k == 2:
+                    sch.add(at2, commit, tid=1, name='commit')
             sch.start()
+            pack_failed = None
             try:
                 _pack(s, stop)
             except locks.Blocked:
                 note('blocked')
                 sch.stop()
                 assume(False)
+            except Exception as ex:
+                # "A pack that cannot complete fails leaving the database usable and unchanged": checked below
+                pack_failed = ex
             sch.stop()
             assume(not sch.pending)
             note('at', sch.trace[0][1] if sch.trace else None)
+            if pack_failed is not None:
+                note('pack_failed', type(pack_failed).__name__)
+                # only an undo committed meanwhile - its record may point back to a revision the packer has already decided to
+                # drop - is accepted as a reason for a pack to give up
+                check(what == 'undo', 'pack failed because of a concurrent commit / read / second pack', type(pack_failed).__name__,
+                      str(pack_failed)[:100])
             # ---- oracle ----
             check(not s._pack_is_in_progress, 'pack flag left set')
             check(not s._commit_lock.locked(), 'commit lock left held after pack')
@@ -329,8 +365,10 @@ HARNESSES = [
             oracle='C07 differential oracle against pre-pack model + injected commits',
             code=['FileStorage.pack', 'FileStoragePacker.pack/copyToPacktime/copyRest/copyOne', 'FilePool.write_lock/empty', 'FileStorage.store/'
                   'tpc_finish/undo during pack', 'MVCCAdapterInstance.load'],
-            quick=dict(timeout=170, shards=shards(what=['commit', 'undo', 'read', 'pack2'], k=[1])),
-            thorough=dict(timeout=1200, shards=shards(what=['commit', 'undo', 'read', 'pack2'], k=[1, 2]))),
+            quick=dict(timeout=170, shards=shards(what=['commit', 'undo', 'read', 'pack2'], k=[1]) + shards(what=['commit'], k=[1], late=[True])
+                       + shards(what=['split'], k=[2], late=[False, True])),
+            thorough=dict(timeout=1200, shards=shards(what=['commit', 'undo', 'read', 'pack2'], k=[1, 2], late=[False, True])
+                          + shards(what=['split'], k=[2], late=[False, True]))),
     Harness('reader_primary', h_reader_primary,
             decides='a whole pack (or commit) placed at any lock/file operation inside a reader\'s load() either has to wait or leaves '
                     'the reader and all later loads correct (file swap versus checked-out read handles)',
